@@ -23,7 +23,13 @@ func (x *Exec) run(st *State, b *ssa.BasicBlock) {
 			x.checkInvariants(st, l, "preserved")
 			x.checkLoopFrame(st, l)
 			x.checkLoopEnsures(st, l)
-			if dec := x.ct.loopDec(l.Ordinal); dec != nil {
+			if dec := x.ct.loopDec(l.Ordinal); dec != nil && x.isRangeLoop(l) {
+				// a lowered `range` over a slice, array or integer terminates by construction (its
+				// hidden index only grows and is bounded by a length fixed before the loop): the
+				// declared variant may be stated over the loop variable of an index loop the code
+				// no longer has
+				x.oblige(st, "variant", fmt.Sprintf("#%d", l.Ordinal), True, b.Instrs[0].Pos(), "range loop: terminates by construction")
+			} else if dec != nil {
 				nv, ok := x.evalSpec(st, dec.Expr, "inv")
 				if ok && st.variantAt[l] != nil {
 					x.oblige(st, "variant", fmt.Sprintf("#%d", l.Ordinal), And(Lt(nv, st.variantAt[l]), Ge(st.variantAt[l], Zero)),
@@ -234,6 +240,24 @@ func (x *Exec) havocLoop(st *State, l *Loop) {
 // integer: the hidden index cell satisfies -1 <= rangeindex < len at the loop head (it is
 // incremented by the head only, compared with a length computed before the loop, and cannot
 // be named by the body).
+// isRangeLoop: the loop head has the shape go/ssa gives a `range` over a slice, array or int.
+func (x *Exec) isRangeLoop(l *Loop) bool {
+	h := l.Head
+	if len(h.Instrs) < 5 {
+		return false
+	}
+	ld, ok1 := h.Instrs[0].(*ssa.UnOp)
+	inc, ok2 := h.Instrs[1].(*ssa.BinOp)
+	stI, ok3 := h.Instrs[2].(*ssa.Store)
+	cmpI, ok4 := h.Instrs[3].(*ssa.BinOp)
+	_, ok5 := h.Instrs[4].(*ssa.If)
+	if !(ok1 && ok2 && ok3 && ok4 && ok5) {
+		return false
+	}
+	cell, ok := ld.X.(*ssa.Alloc)
+	return ok && cell.Comment == "rangeindex" && stI.Addr == ssa.Value(cell) && inc.X == ssa.Value(ld) && cmpI.X == ssa.Value(inc) && cmpI.Op == token.LSS
+}
+
 func (x *Exec) rangeIndexInvariant(st *State, l *Loop) {
 	h := l.Head
 	if len(h.Instrs) < 5 {
@@ -483,6 +507,9 @@ func (x *Exec) step(st *State, in ssa.Instruction) bool {
 			st.regs[i] = x.val(st, pv)
 		}
 	case *ssa.Call:
+		if callee := x.inlinable(st, i.Common()); callee != nil {
+			return x.inlineCall(st, i, callee)
+		}
 		return x.doCall(st, i, i.Common(), i)
 	case *ssa.Go:
 		x.doGo(st, i)
@@ -522,6 +549,10 @@ func (x *Exec) step(st *State, in ssa.Instruction) bool {
 		x.run(st, nb)
 		return false
 	case *ssa.Return:
+		if len(st.inl) > 0 {
+			x.inlineReturn(st, i)
+			return false
+		}
 		x.doReturn(st, i)
 		return false
 	case *ssa.Panic:
@@ -1568,3 +1599,212 @@ func (x *Exec) checkCapture(st *State, mc *ssa.MakeClosure, callee *ssa.Function
 		}
 	}
 }
+
+
+// ---------------------------------------------------------------------------------------------
+// Inline execution of small helpers that have no contract.
+//
+// A function of the module that is called statically, has no contract, no loop, no defer and
+// no goroutine start and is small is executed inline, path by path, instead of being replaced
+// by "inferred frame, unknown result". Extracting a few lines of a verified function into a
+// helper therefore does not change what is proved about the caller.
+
+type execCtx struct {
+	fn      *ssa.Function
+	ct      *Contract
+	params  map[string]Val
+	loops   []*Loop
+	headOf  map[*ssa.BasicBlock]*Loop
+	fresh   map[ssa.Value]bool
+	heapCls map[*ssa.Alloc]bool
+	shared  map[*ssa.Alloc]bool
+}
+
+type inlineFrame struct {
+	call   *ssa.Call
+	caller execCtx
+	callee execCtx
+	prev   *ssa.BasicBlock
+	defers []deferred
+}
+
+func (x *Exec) saveCtx() execCtx {
+	return execCtx{x.fn, x.ct, x.params, x.loops, x.headOf, x.fresh, x.heapCls, x.shared}
+}
+
+func (x *Exec) restoreCtx(c execCtx) {
+	x.fn, x.ct, x.params, x.loops, x.headOf, x.fresh, x.heapCls, x.shared = c.fn, c.ct, c.params, c.loops, c.headOf, c.fresh, c.heapCls, c.shared
+}
+
+const inlineMaxInstrs = 80
+
+func (x *Exec) inlinable(st *State, c *ssa.CallCommon) *ssa.Function {
+	r, why := x.inlinableWhy(st, c)
+	if os.Getenv("GOWP_DEBUG") == "inline" && r == nil && c.StaticCallee() != nil && fnInModule(c.StaticCallee()) && x.P.Contracts[c.StaticCallee()] == nil {
+		fmt.Fprintf(os.Stderr, "not inlined: %s in %s: %s\n", c.StaticCallee().String(), x.fn.String(), why)
+	}
+	return r
+}
+
+func (x *Exec) inlinableWhy(st *State, c *ssa.CallCommon) (*ssa.Function, string) {
+	f := x.inlinable0(st, c)
+	return f, x.inlWhy
+}
+
+func (x *Exec) inlinable0(st *State, c *ssa.CallCommon) *ssa.Function {
+	x.inlWhy = "shape"
+	if c.IsInvoke() || len(st.inl) >= 2 {
+		return nil
+	}
+	callee := c.StaticCallee()
+	if callee == nil || callee.Blocks == nil || !fnInModule(callee) || callee.Synthetic != "" || callee == x.fn {
+		return nil
+	}
+	if x.P.Contracts[callee] != nil || callee.Recover != nil || len(callee.FreeVars) > 0 {
+		return nil
+	}
+	for _, fr := range st.inl {
+		if fr.callee.fn == callee {
+			return nil
+		}
+	}
+	if len(x.P.Loops(callee)) > 0 {
+		return nil
+	}
+	n := 0
+	for _, b := range callee.Blocks {
+		for _, in := range b.Instrs {
+			n++
+			switch in.(type) {
+			case *ssa.Go, *ssa.Defer, *ssa.Select, *ssa.MakeClosure, *ssa.Panic:
+				x.inlWhy = fmt.Sprintf("instruction %T", in)
+				return nil
+			}
+		}
+	}
+	if n > inlineMaxInstrs {
+		return nil
+	}
+	return callee
+}
+
+func (x *Exec) inlineCall(st *State, call *ssa.Call, callee *ssa.Function) bool {
+	var args []Val
+	for _, a := range call.Call.Args {
+		args = append(args, x.val(st, a))
+	}
+	x.countCall(st, callRecordName(x.fn, call.Common()), args, call.Common())
+	caller := x.saveCtx()
+	x.fn, x.ct = callee, nil
+	x.params = map[string]Val{}
+	for i, p := range callee.Params {
+		if i < len(args) {
+			x.params[p.Name()] = args[i]
+		}
+	}
+	x.loops, x.headOf = nil, map[*ssa.BasicBlock]*Loop{}
+	x.fresh = freshValues(callee)
+	x.classify()
+	fr := &inlineFrame{call: call, caller: caller, callee: x.saveCtx(), prev: st.prev, defers: st.defers}
+	st.inl = append(st.inl, fr)
+	st.defers = nil
+	st.prev = nil
+	x.inlined[relName(callee)] = true
+	x.run(st, callee.Blocks[0])
+	x.restoreCtx(caller)
+	return false // the rest of the caller has been executed from inside, once per return path
+}
+
+func (x *Exec) inlineReturn(st *State, r *ssa.Return) {
+	fr := st.inl[len(st.inl)-1]
+	st.inl = st.inl[:len(st.inl)-1]
+	var res []Val
+	for _, rv := range r.Results {
+		res = append(res, x.val(st, rv))
+	}
+	x.restoreCtx(fr.caller)
+	switch len(res) {
+	case 0:
+	case 1:
+		st.regs[fr.call] = res[0]
+	default:
+		st.regs[fr.call] = Val{Tup: res}
+	}
+	// the call record carries the results like any other call
+	name := callRecordName(x.fn, fr.call.Common())
+	for i, v := range res {
+		if v.T != nil {
+			k := fmt.Sprintf("#ret$%s$%d", name, i)
+			st.ghost[k] = v.T
+		}
+	}
+	st.prev = fr.prev
+	st.defers = fr.defers
+	b := fr.call.Block()
+	idx := -1
+	for i, in := range b.Instrs {
+		if in == ssa.Instruction(fr.call) {
+			idx = i
+		}
+	}
+	cont := true
+	for i := idx + 1; i < len(b.Instrs) && cont; i++ {
+		cont = x.step(st, b.Instrs[i])
+	}
+	x.restoreCtx(fr.callee)
+}
+
+
+// onlyInlined: an unexported function without contract whose every use is a static call from
+// the module that the executor runs inline - it is verified in the context of its callers
+// and not once more on its own with unknown arguments.
+func (P *Program) onlyInlined(fn *ssa.Function) bool {
+	if fn.Parent() != nil || token.IsExported(fn.Name()) || fn.Synthetic != "" || len(P.Loops(fn)) > 0 || fn.Recover != nil {
+		return false
+	}
+	if fn.Name() == "init" || fn.Name() == "main" {
+		return false
+	}
+	n := 0
+	for _, b := range fn.Blocks {
+		for _, in := range b.Instrs {
+			n++
+			switch in.(type) {
+			case *ssa.Go, *ssa.Defer, *ssa.Select, *ssa.MakeClosure, *ssa.Panic:
+				return false
+			}
+		}
+	}
+	if n > inlineMaxInstrs {
+		return false
+	}
+	calls := 0
+	for _, g := range P.ModFuncs {
+		for _, b := range g.Blocks {
+			for _, in := range b.Instrs {
+				if c, ok := in.(*ssa.Call); ok && c.Call.StaticCallee() == fn {
+					if g == fn || P.Contracts[g] == nil && !P.onlyInlinedShallow(g) {
+						// called from a function that is itself swept standalone: fine, it is inlined there
+					}
+					calls++
+					continue
+				}
+				for _, op := range in.Operands(nil) {
+					if op != nil && *op != nil {
+						if f, ok := (*op).(*ssa.Function); ok && f == fn {
+							if ci, isCall := in.(ssa.CallInstruction); !isCall || ci.Common().StaticCallee() != fn {
+								return false // used as a value, deferred or spawned
+							}
+							if _, isPlainCall := in.(*ssa.Call); !isPlainCall {
+								return false
+							}
+						}
+					}
+				}
+			}
+		}
+	}
+	return calls > 0
+}
+
+func (P *Program) onlyInlinedShallow(g *ssa.Function) bool { return false }
